@@ -22,14 +22,21 @@ RULE = ("records = (write/read history, storage configuration); histories are dr
         "dataset with the same parameters is the chunked one's baseline), deflate levels 0..9 and skphuff skip sizes "
         "1,2,3,4,5,8 compressed and chunked+compressed for SD and GR; GR creation interlace x requested read interlace "
         "(3 x 4 incl. 'never requested') for contiguous, chunked and chunked+compressed multi-component images with "
-        "GRwritechunk/GRreadchunk interleaved with GRwriteimage/GRreadimage of the same regions. Thorough tier: every chunk shape of every extent up to "
+        "GRwritechunk/GRreadchunk interleaved with GRwriteimage/GRreadimage of the same regions; byte-stream (H-level) "
+        "reads of the data element through three access ids at the same time (interleaved Hseek/Hread, reads without a "
+        "seek) under contiguous, chunked, chunked+compressed, compressed and external layouts for SD and GR; external "
+        "elements at offsets 0..4096 sharing their file with foreign guard bytes in front, written completely and then "
+        "partially rewritten near the end, with the guard bytes and the placement of the data in the external file "
+        "checked at the end. Thorough tier: every chunk shape of every extent up to "
         "4x4x3 with cache sizes 1..chunks+1. Each record's output is compared with the array specification. "
         "Function level: static chunk arithmetic of hchunks.c and mcache_get/put/sync vs the Coq models on generated "
         "and exhaustive small cases. A record is non-trivial when it transfers data under a non-baseline layout; "
         "distinct by (extent, type, configuration, operations)")
 TRUSTED = ["Coq 8.16.1 kernel",
            "translator gen/gen_consts.py + plugin gen/plugins/c04_chunk.py (constants and HASHKEY of mcache_priv.h; "
-           "assignment/condition expressions of the chunk arithmetic functions of hchunks.c; flag updates of mcache.c), "
+           "assignment/condition expressions of the chunk arithmetic functions of hchunks.c; flag updates of mcache.c; "
+           "position/length updates of hextelt.c HXPwrite/HXPread; ordered call lists with argument text of the hchunks.c "
+           "transfer routines and of the HXcreate/fseek calls of the external-file routines), "
            "through gcc -E",
            "extraction: Require Extraction + ExtrOcamlBasic; no Extract Constant; Z/positive/nat extracted as inductives",
            "OCaml driver extract/layout_main.ml, C harnesses harness/drive_layout.c, drive_chunkfn.c, drive_mcache.c, "
